@@ -1,6 +1,7 @@
 import Astral.Model.Proto
 import Astral.Model.Julian
 import Astral.Model.Sun
+import Astral.Model.Moon
 import Std.Data.HashMap
 open Astral Astral.Proto
 
@@ -150,6 +151,46 @@ def handleSun (zs : Zones) (fn : String) (a : Array String) : Option String := d
         (sunBundle o d dep tz))
   | _ => none
 
+def optI : Option Int → String
+  | some t => tokI t
+  | none => "N"
+
+def handleMoon (zs : Zones) (fn : String) (a : Array String) : Option String := do
+  match fn with
+  | "moon_position" =>
+      let x ← getF a[0]!
+      pure (exc (fun (p : BodyPos F) => s!"{tokF p.ra} {tokF p.dec} {tokF p.dist}") (moonPosition x))
+  | "gmst_jd2000" => let x ← getF a[0]!; pure (tokF (gmstOfJd2000 x))
+  | "gmst_date" => let d ← getI a[0]!; pure (tokF (gmstOfJd2000 (julianDay2000Date (α := F) d)))
+  | "gmst_dt" => let w ← getI a[0]!; pure (tokF (gmstOfJd2000 (julianDay2000Wall (α := F) w)))
+  | "lmst_date" =>
+      let d ← getI a[0]!; let lon ← getF a[1]!
+      pure (tokF (lmstOfJd2000 (julianDay2000Date (α := F) d) lon))
+  | "interpolate" =>
+      let f0 ← getF a[0]!; let f1 ← getF a[1]!; let f2 ← getF a[2]!; let p ← getF a[3]!
+      pure (tokF (interpolate f0 f1 f2 p))
+  | "riseset" =>
+      let d ← getI a[0]!; let lat ← getF a[1]!; let lon ← getF a[2]!
+      pure (exc (fun (r : Option Int × Option Int) => s!"{optI r.1} {optI r.2}") (riseset d lat lon))
+  | "moonrise" =>
+      let lat ← getF a[0]!; let lon ← getF a[1]!; let d ← getI a[2]!; let tz ← getZ zs a[3]!
+      pure (exc optI (moonrise lat lon d tz))
+  | "moonset" =>
+      let lat ← getF a[0]!; let lon ← getF a[1]!; let d ← getI a[2]!; let tz ← getZ zs a[3]!
+      pure (exc optI (moonset lat lon d tz))
+  | "moon_azimuth" =>
+      let lat ← getF a[0]!; let lon ← getF a[1]!; let w ← getI a[2]!
+      pure (exc tokF (moonAzimuth lat lon w))
+  | "moon_elevation" =>
+      let lat ← getF a[0]!; let lon ← getF a[1]!; let w ← getI a[2]!
+      pure (exc tokF (moonElevation lat lon w))
+  | "moon_zenith" =>
+      let lat ← getF a[0]!; let lon ← getF a[1]!; let w ← getI a[2]!
+      pure (exc tokF (moonZenith lat lon w))
+  | "phase_asfloat" => let d ← getI a[0]!; pure (tokF (phaseAsFloat (α := F) d))
+  | "phase" => let d ← getI a[0]!; pure (tokF (phase (α := F) d))
+  | _ => none
+
 def handle (fn : String) (a : Array String) : Option String := do
   match fn with
   | "julianday_date" =>
@@ -200,7 +241,7 @@ def processLine (zs : Zones) (line : String) : Zones × String :=
       | some (id, tz) => (zs.insert id tz, "ok")
       | none => (zs, tokE .badRequest)
     else
-      match (handle fn a <|> handleSun zs fn a) with
+      match (handle fn a <|> handleSun zs fn a <|> handleMoon zs fn a) with
       | some r => (zs, r)
       | none => (zs, tokE .badRequest)
 
